@@ -61,7 +61,7 @@ ILL = [None, True, 1.5, float("nan"), float("inf"), 2.0 ** 31, -2.0 ** 31 - 1, 2
 # bytes functions
 
 def p_find(q):
-    n = 3 if q else 4
+    n = 3 if q else 5
     pats = list(strs(A4, 2))
     starts = [OMIT, -1, 0, 1, 2, 3, 4, 5]
     for f in ("string/find", "string/find-all"):
@@ -70,7 +70,7 @@ def p_find(q):
 
 def p_find_kmp(q):
     """longer self-overlapping patterns over {a,b}: exercises the failure table"""
-    pl, tl = (3, 6) if q else (4, 8)
+    pl, tl = (3, 6) if q else (4, 9)
     pats = list(strs([97, 98], pl, 1))
     texts = list(strs([97, 98], tl))
     for f in ("string/find", "string/find-all"):
@@ -859,10 +859,10 @@ PARTS = [
 def sort_items(q):
     """-> list of (label, item text, expected number of cases)"""
     out = []
-    nseq = 8 if q else 9
-    nperm = 8 if q else 9
-    nrank = 6 if q else 7
-    ntag = 7 if q else 8
+    nseq = 7 if q else 9
+    nperm = 7 if q else 9
+    nrank = 5 if q else 7
+    ntag = 6 if q else 8
 
     def fact(n):
         return math.factorial(n)
@@ -917,7 +917,7 @@ def run_sort(chk, r):
     items = sort_items(chk.quick)
     # cheapest first so that a deadline cuts between bounds
     res = run_batch("fast", os.path.join(os.path.dirname(os.path.abspath(__file__)), "driver_sort.janet"),
-                    [t for _, t, _ in items], chunk=1, timeout=90 if chk.quick else 240)
+                    [t for _, t, _ in items], chunk=1, timeout=300 if chk.quick else 900)
     total = 0
     for (label, txt, want), (status, text) in zip(items, res):
         if status != "OK":
@@ -989,6 +989,6 @@ def run_all(chk, r):
 def bound_text(chk):
     if chk.quick:
         return ("byte strings <=3 (kmp: patterns <=3, texts <=6), buffers/arrays 0..4-6 + growth grids to 18, sequences <=4 over {0,1,2}, "
-                "sort: all sequences <=8 over 4 letters, all permutations of 0..7, all 256 strict weak orders on 4 letters x sequences <=6")
-    return ("byte strings <=4 (kmp: patterns <=4, texts <=8), buffers/arrays 0..8-12 + growth grids to 40-66, sequences <=5-6 over {0,1,2}, "
+                "sort: all sequences <=7 over 4 letters, all permutations of 0..6, all 256 strict weak orders on 4 letters x sequences <=5")
+    return ("byte strings <=4-5 (kmp: patterns <=4, texts <=9), buffers/arrays 0..8-12 + growth grids to 40-66, sequences <=5-6 over {0,1,2}, "
             "sort: all sequences <=9 over 4 letters, all permutations of 0..8, all 256 strict weak orders on 4 letters x sequences <=7")
